@@ -148,7 +148,7 @@ class World:
         raise Uninterpreted(show(f))
 
     def lin(self, x, syntactic=False):
-        x = strip(x, VALUE_CALLS, VALUE_MCALLS, VALUE_ATTRS)
+        x = strip(_bound_calls(x), VALUE_CALLS, VALUE_MCALLS, VALUE_ATTRS)
         out = {}
         for c, fs in expand_products(x):
             if not fs:
@@ -163,6 +163,17 @@ class World:
                 out2 = lin_add(out2, {self.alias.get(k, k): v})
             out = out2
         return out
+
+
+def _bound_calls(x):
+    """`m = obj.method; m(args)` is `obj.method(args)`."""
+    from ..terms import rebuild
+
+    def f(t):
+        if t.op == "call" and isinstance(t.args[0], T) and t.args[0].op == "attr":
+            return T("mcall", t.args[0].args[0], t.args[0].args[1], t.args[1], t.args[2])
+        return t
+    return rebuild(x, f)
 
 
 def perm_labels(p):
@@ -222,6 +233,7 @@ def term_objs(n, **common):
     for i in range(n):
         o = Obj(None, f"t{i}")
         o.attrs.update(sympy=T("attr", sym(f"t{i}"), "sympy"), **{k: (v(i) if callable(v) else v) for k, v in common.items()})
+        o.attrs["permute"] = lambda sx, a, kw, o=o: h_permute(sx, [o] + list(a), kw)
         out.append(o)
     return out
 
@@ -434,7 +446,7 @@ def r10b_filter(ctx):
     for names in (["V"], ["V", "V"], ["V", "f"], ["V", "t1"], ["Y", "V", "V"]):
         for strict in ("low", "medium", "high"):
             for ignore in ((True, False) if strict == "high" else (True,)):
-                sx = Symex(ctx.model, inline=lambda q: q.startswith("simplify:filter_tensor"), hooks=hooks, what="filter_tensor")
+                sx = Symex(ctx.model, inline=lambda q: q.startswith("simplify:"), hooks=hooks, what="filter_tensor")
                 what = f"filter_tensor({names}, {strict}{', keep amplitudes' if not ignore else ''})"
                 o = one_return(ctx, rule, fn, sx.run(fn, lambda: mk(names, strict, ignore)), what, key=f"{what} shape")
                 if o is None:
@@ -446,7 +458,7 @@ def r10b_filter(ctx):
                           f"{what} returns the terms {p if p is not None else show(o.value)[:200]}, the documented selection is {sorted(exp)} "
                           f"(terms {[TERMS[i] for i in sorted(set(exp) ^ set(p or {}))]} differ)", key=what)
     ctx.floor(rule, "filter_tensor tables", n, 15)
-    sx = Symex(ctx.model, inline=lambda q: q.startswith("simplify:filter_tensor"), hooks=hooks, what="filter_tensor")
+    sx = Symex(ctx.model, inline=lambda q: q.startswith("simplify:"), hooks=hooks, what="filter_tensor")
     outs = sx.run(fn, lambda: mk(["V"], "strictest", True))
     ctx.check(rule, fn, bool(outs) and all(o.kind == "raise" for o in outs), "filter_tensor: unknown strictness refused",
               "filter_tensor accepts an unknown strictness level", key="filter strict guard")
@@ -734,6 +746,7 @@ def _term_worlds():
         ("V^ab_ij X_k, k with spin", (V("ab", "ij"), F("X", "", "k", "plain")), dict(i=o, j=o, k=("occ", "a"), a=v, b=v), "ij", False),
         ("V^ab_ij X_k", (V("ab", "ij"), F("X", "", "k", "plain")), dict(i=o, j=o, k=o, a=v, b=v), "jk", False),
         ("W_ijk symmetric", (F("W", "", "ijk", "sym"),), dict(i=o, j=o, k=o), "ij", False),
+        ("W_ik, k with spin", (F("W", "", "ik", "sym"),), dict(i=o, k=("occ", "a")), "", False),
         ("A_i B_j C_k", (F("A", "", "i", "plain"), F("B", "", "j", "plain"), F("C", "", "k", "plain")), dict(i=o, j=o, k=o), "", False),
         ("V^ab_ij Y_i", (V("ab", "ij"), F("Y", "", "i", "plain")), dict(i=o, j=o, a=v, b=v), "i", False),
         ("V^ab_ij V^ab_kl", (V("ab", "ij"), V("ab", "kl")), dict(i=o, j=o, k=o, l=o, a=v, b=v), "ab", False),
@@ -742,7 +755,8 @@ def _term_worlds():
 
 
 def _term_inline(q):
-    return False
+    """helpers of the module are evaluated through; the vocabulary (permute, Expr, Permutation, ...) is hooked"""
+    return q.startswith("expr_container:")
 
 
 def r10_term_symmetry(ctx, thorough=False):
@@ -1014,7 +1028,7 @@ def r10c_evaluate(ctx):
             me.attrs["_term_map"] = {"marker": 1}
             box["self"], box["ix"] = me, ix
             return dict(self=me, antisymmetric_result_tensor=anti)
-        sx = Symex(ctx.model, inline=lambda q: q == "symmetry:LazyTermMap.evaluate", hooks=scen.hooks(), what="evaluate")
+        sx = Symex(ctx.model, inline=_sym_inline, hooks=scen.hooks(), what="evaluate")
         sx.on_start = scen.reset
         what = f"LazyTermMap.evaluate({'anti' if anti else ''}symmetric result)"
         o = one_return(ctx, rule, fn, sx.run(fn, mk), what, key=f"evaluate {anti} shape")
@@ -1148,7 +1162,7 @@ def r10a_denom(ctx):
         o = Obj("eri_orbenergy:EriOrbenergy", "self")
         o.attrs.update(denom=d, eri=Obj(None, "eri", idx=tuple(eri_idx), symmetry=symmetry))
         return o
-    mk_sx = lambda: Symex(ctx.model, inline=lambda q: False, hooks={"permute": h_permute}, what="denom_eri_sym",   # noqa: E731
+    mk_sx = lambda: Symex(ctx.model, inline=lambda q: q.startswith("eri_orbenergy:"), hooks={"permute": h_permute}, what="denom_eri_sym",   # noqa: E731
                           oracle=make_oracle(lambda: w))
     o = one_return(ctx, rule, fn, mk_sx().run(fn, lambda: dict(self=me(), eri_sym=dict(eri_sym))), "denom_eri_sym", key="denom shape")
     if o is not None:
@@ -1214,7 +1228,7 @@ def r10a_compare_remainder(ctx):
             return dict(remainder=r, ref_remainder=q, itmd_indices=(index("a", "virt"), index("b", "virt")))
         hooks = {"factor_eri_parts": (lambda sx, a, kw: summands(a[0])) if split_eri else h_parts,
                  "factor_denom": (lambda sx, a, kw: summands(a[0])) if split_den else h_parts}
-        sx = Symex(ctx.model, inline=lambda q: False, hooks=hooks, what="_compare_remainder", oracle=make_oracle(lambda w=w: w))
+        sx = Symex(ctx.model, inline=lambda q: q.startswith("factor_intermediates:"), hooks=hooks, what="_compare_remainder", oracle=make_oracle(lambda w=w: w))
         what = f"_compare_remainder[{name}]"
         o = one_return(ctx, rule, fn, sx.run(fn, mk), what, key=f"remainder {name} shape")
         if o is None:
